@@ -42,3 +42,49 @@ def snap_diff(a, b):
 def rows(net):
     return {k: len(net[k]) for k in net.keys() if isinstance(net[k], pd.DataFrame) and not k.startswith("_")
             and not k.startswith("res_")}
+
+
+def col_digest(col):
+    h = hashlib.sha1()
+    try:
+        if col.dtype == object or str(col.dtype) in ("string", "category") or str(col.dtype)[0].isupper():
+            h.update(repr([None if (x is None or x is pd.NA or (isinstance(x, float) and np.isnan(x))) else
+                           (x if isinstance(x, (str, int, float, bool)) else type(x).__name__) for x in col.tolist()]).encode())
+        else:
+            a = np.ascontiguousarray(col.values)
+            if a.dtype.kind == "f":
+                a = a.astype(np.float64)
+            elif a.dtype.kind in "iu":
+                a = a.astype(np.int64)
+            h.update(a.tobytes())
+    except Exception:  # noqa
+        h.update(repr(col.tolist()).encode())
+    return h.hexdigest()[:12]
+
+
+def value_snapshot(net):
+    """{table: {"#index": digest, column: digest}} for every input table (no res_*, no private tables)."""
+    out = {}
+    for k in list(net.keys()):
+        v = net[k]
+        if isinstance(v, pd.DataFrame) and not k.startswith("_") and not k.startswith("res_"):
+            d = {"#index": hashlib.sha1(repr(list(v.index)).encode()).hexdigest()[:12]}
+            for c in v.columns:
+                d[str(c)] = col_digest(v[c])
+            out[k] = d
+    return out
+
+
+def value_diff(a, b):
+    """pre-existing values that changed: ['table.column', ...] (new columns/tables are not a change of existing values)."""
+    out = []
+    for t, cols in a.items():
+        if t not in b:
+            out.append(t + ".#dropped")
+            continue
+        for c, dg in cols.items():
+            if c not in b[t]:
+                out.append("%s.%s#dropped" % (t, c))
+            elif b[t][c] != dg:
+                out.append("%s.%s" % (t, c))
+    return sorted(out)
